@@ -213,6 +213,10 @@ def contains(eng, container, item, st, node):
         return z3.Or([eng.equal(item, x, st) for x in container.items] + [z3.BoolVal(False)])
     if isinstance(container, ZV) and isinstance(container.shape, TDict):
         return container.shape.has(container.term, box(item, container.shape.k))
+    if isinstance(container, ZV) and isinstance(container.shape, TList):
+        sh = container.shape
+        x = box(item, sh.elem)
+        return T.list_contains(sh)(container.term, x)
     raise Unsupported('in on %r' % (container,))
 
 
@@ -380,7 +384,85 @@ def _open(eng, e, st, args, kw):
     if k == 1:
         raise RaisePath(st, 'IOError')
     mode = args[1] if len(args) > 1 else kw.get('mode', zstr('r'))
-    return PObj(FILE_CLS, {'name': args[0], 'mode': mode})
+    name = args[0]
+    lines = ZV(TList(TStr), fs_lines(box(name, TStr)))
+    st.assume(TList(TStr).len(lines.term) >= 0)
+    return PObj(FILE_CLS, {'name': name, 'mode': mode, 'lines': lines, 'pos': zint(0)})
+
+
+fs_lines = z3.Function('fs_lines', T.Str, TList(TStr).sort())   # text lines of the file at a path (stable during a call)
+pjoin = z3.Function('pjoin', T.Str, T.Str, T.Str)              # os.path.join of two components
+s_rstrip = z3.Function('s_rstrip', T.Str, T.Str)               # str.rstrip()
+s_split_tab = z3.Function('s_split_tab', T.Str, TList(TStr).sort())   # str.split('\t')
+s_isfloat = z3.Function('s_isfloat', T.Str, T.BoolS)
+
+
+def _path_join(eng, e, st, args, kw):
+    _use(eng, 'os.path.join is a function of its components')
+    t = box(args[0], TStr)
+    for a in args[1:]:
+        t = pjoin(t, box(a, TStr))
+    return ZV(TStr, t)
+
+
+def _seek(eng, e, st, args, kw):
+    obj = args[0]
+    if not (isinstance(args[1], ZV) and args[1].pyval == 0):
+        raise Unsupported('file.seek to a position other than 0')
+    eng.assign(e.func.value, obj.with_field('pos', zint(0)), st)
+    return PNone()
+
+
+def _rstrip(eng, e, st, val, valexpr, args, kw):
+    if args:
+        raise Unsupported('rstrip with arguments')
+    if isinstance(val, ZV) and val.shape == TStr:
+        if val.pyval is not None:
+            return zstr(val.pyval.rstrip())
+        return ZV(TStr, s_rstrip(val.term))
+    raise Unsupported('.rstrip() on %r' % (val,))
+
+
+def _split(eng, e, st, val, valexpr, args, kw):
+    if not (len(args) == 1 and isinstance(args[0], ZV) and args[0].pyval == '\t'):
+        raise Unsupported("split with a separator other than TAB")
+    if isinstance(val, ZV) and val.shape == TStr:
+        _use(eng, "str.split('\\t') returns at least one field")
+        r = s_split_tab(val.term)
+        st.assume(TList(TStr).len(r) >= 1)
+        return ZV(TList(TStr), r)
+    raise Unsupported('.split() on %r' % (val,))
+
+
+def _float(eng, e, st, args, kw):
+    v = args[0]
+    if isinstance(v, ZV) and v.shape == TF:
+        return v
+    if isinstance(v, ZV) and v.shape == TInt:
+        from .engine import int_to_f
+        return ZV(TF, int_to_f(v.term))
+    if isinstance(v, ZV) and v.shape == TStr:
+        _use(eng, 'float(str): ValueError iff not s_isfloat(s)')
+        k = st.choose(2)
+        if k == 0:
+            st.assume(s_isfloat(v.term))
+            return ZV(TF, s_tofloat(v.term))
+        st.assume(z3.Not(s_isfloat(v.term)))
+        raise RaisePath(st, 'ValueError')
+    raise Unsupported('float() of %r' % (v,))
+
+
+def _insert(eng, e, st, val, valexpr, args, kw):
+    """xs.insert(i, x) for 0 <= i <= len(xs)"""
+    lst = eng.to_zlist(val)
+    sh = lst.shape
+    i = eng.as_int(args[0])
+    n = sh.len(lst.term)
+    eng.safety(st, z3.And(0 <= i, i <= n), 'insert_index', e)
+    f = T.list_fn('linsert', sh, [T.IntS, sh.elem.sort()])
+    new = ZV(sh, f(lst.term, i, box(args[1], sh.elem)))
+    eng.assign(valexpr, new, st)
+    return PNone()
 
 
 def _cfg_write(eng, e, st, args, kw):
@@ -412,6 +494,12 @@ def _input(eng, e, st, args, kw):
 def install_os(eng):
     b = eng.builtins
     b['open'] = _open
+    b['os.path.join'] = _path_join
+    b[FILE_CLS + '.seek'] = _seek
+    b['method.rstrip'] = _rstrip
+    b['method.split'] = _split
+    b['float'] = _float
+    b['method.insert'] = _insert
     b[CONFIG_CLS + '.write'] = _cfg_write
     b['threading.Thread'] = _thread
     b[THREAD_CLS + '.start'] = lambda eng, e, st, args, kw: PNone()
